@@ -139,6 +139,9 @@ func (e *specEnv) eval(s *SExpr) T {
 		if s.Name == "!" {
 			return mkBool(not(v.S))
 		}
+		if s.Name == "*" {
+			return v
+		}
 		return mkMath(fmt.Sprintf("(- %s)", v.S))
 	case "bin":
 		return e.evalBin(s)
@@ -194,6 +197,12 @@ func (e *specEnv) eval(s *SExpr) T {
 			ln = hi.S
 		}
 		return T{S: fmt.Sprintf("(mk-slc %s %s %s)", slcArr(base.S), x.slcIdx(base.S, lo.S), ln), Ty: base.Ty}
+	case "let":
+		v := e.eval(s.Args[0])
+		e.binders = append(e.binders, map[string]T{s.Name: v})
+		body := e.eval(s.Args[1])
+		e.binders = e.binders[:len(e.binders)-1]
+		return body
 	case "quant":
 		frame := map[string]T{}
 		var decls []string
@@ -397,10 +406,15 @@ func (e *specEnv) evalField(base T, name string) T {
 			return e.fail("no field %q in %s", name, t)
 		}
 	}
+	target := st
 	if e.inOld && e.old != nil {
-		return x.loadPathNoCheck(e.old, base, t, path)
+		target = e.old
 	}
-	return x.loadPathNoCheck(st, base, t, path)
+	if len(e.binders) > 0 {
+		// facts learned about terms with bound variables must not leak into the state
+		target = target.clone()
+	}
+	return x.loadPathNoCheck(target, base, t, path)
 }
 
 func (e *specEnv) pkgTypes() *types.Package {
